@@ -614,6 +614,18 @@ def run(ctx):
             ctx.violation("D10 recurrence: " + describe(r), {"case": r["case"], "impl": r["impl"], "model": r["model"]})
         if "pinned:D15a" in tg and not r["cwd_ok"] and r["verdict"] != "MISMATCH":
             ctx.violation("D15a recurrence: " + describe(r), {"case": r["case"], "impl": r["impl"], "model": r["model"]})
+    # known finding D10b: without a prefix list a file whose name contains a backslash silently replaces / is
+    # replaced by the file at the slash path (model and implementation agree; the property text forbids the drop)
+    open_known = {e["id"]: e for e in core.load_known("C10") if e.get("status") == "open"}
+    for r in recs:
+        if "pinned:backslash" in " ".join(r["case"]["tags"]) and r["case"]["args"]["lstrip"] is None:
+            dropped = "ok" in r["impl"] and len(r["impl"]["ok"]) == 1
+            if dropped and "D10b" in open_known:
+                ctx.known.append("D10b two files 'a/b' and 'a\\b' are recorded as the single entry 'a/b' (one file silently dropped) "
+                                 "when no prefix list is given")
+            elif dropped and r["verdict"] != "MISMATCH":
+                ctx.violation("backslash file name silently dropped (not listed as an open known finding): " + describe(r),
+                              {"case": r["case"], "impl": r["impl"], "model": r["model"]})
     broken = ctx.broken_obligations()
     if broken and not mism and not sbad:
         ctx.violation("broken obligation(s): " + "; ".join(nm for nm, _ in broken),
